@@ -810,6 +810,27 @@ func parallelSlicesCutAlike(c *Ctx, rule string) {
 		})
 	}
 	c.count("parallel_slice_returns", n)
+	if n == 0 {
+		// lines and flags travel in ONE slice (of pairs) — there is nothing that could be cut unequally. The anchor is then
+		// the expression formatter itself: a function of the package that runs go/format over an expression.
+		nf := 0
+		for _, fd := range allFuncDecls(p) {
+			if fd.Body == nil {
+				continue
+			}
+			ast.Inspect(fd.Body, func(x ast.Node) bool {
+				if call, ok := x.(*ast.CallExpr); ok {
+					if fn := calleeOf(info, call); fn != nil && fullName(fn) == "go/format.Source" {
+						nf++
+					}
+				}
+				return true
+			})
+		}
+		if nf > 0 {
+			c.ok(rule, p.PkgPath+"|no-parallel-slices", "", fmt.Sprintf("no function of the formatter returns two slices made parallel by make(…, len(·)); %d calls of go/format.Source examined", nf))
+		}
+	}
 	c.floor(rule, 1)
 }
 
